@@ -15,6 +15,7 @@ NFTTransferSender(w, c) ==
   IF BLen(da.h) # ALen(c.caller) THEN Err(w)
   ELSE IF da.h = cfg.addrs[c.caller].hex THEN Err(w)
   ELSE IF Ad(da) = "" THEN Unk(w)
+  ELSE IF ~IsMetaA(Ad(da)) /\ Ad(da) \notin DOMAIN w.acct THEN Unk(w)     \* the system account as a destination is not modelled
   ELSE LET dest == Ad(da) IN
   IF IsMetaA(dest) THEN Err(w) ELSE
   LET cost == Cost(w, "ESDTNFTTransfer")
@@ -98,6 +99,7 @@ MultiSender(w, c) ==
   IF BLen(da.h) # ALen(c.caller) THEN Err(w)
   ELSE IF da.h = cfg.addrs[c.caller].hex THEN Err(w)
   ELSE IF Ad(da) = "" THEN Unk(w)
+  ELSE IF ~IsMetaA(Ad(da)) /\ Ad(da) \notin DOMAIN w.acct THEN Unk(w)     \* the system account as a destination is not modelled
   ELSE LET dest == Ad(da)
            k == A(c,2).n IN
   IF IsMetaA(dest) THEN Err(w)
